@@ -160,7 +160,6 @@ func solverPrelude() string {
 
 func (m *Machine) caseMap(s Str, upper bool) Str {
 	m.needConcreteStr(s, "ToUpper/ToLower")
-	c := m.ctx
 	out := make([]*Term, len(s.R))
 	for i, r := range s.R {
 		if r.IsConst() {
@@ -173,13 +172,7 @@ func (m *Machine) caseMap(s Str, upper bool) Str {
 			out[i] = mkBV(32, uint64(uint32(v)))
 			continue
 		}
-		name := "go_tolower"
-		if upper {
-			name = "go_toupper"
-		}
-		t := c.UF(name, SBV32, r)
-		t.Valid = true
-		out[i] = t
+		out[i] = m.caseMapRune(r, upper)
 	}
 	return Str{R: out}
 }
@@ -259,4 +252,49 @@ func (p *Program) growCap(et types.Type, ln, cp, add int) int {
 		}
 	}
 	panic(unsupported(fmt.Sprintf("append growth for element size %d", size)))
+}
+
+func (m *Machine) caseMapRune(r *Term, upper bool) *Term {
+	c := m.ctx
+	if r.IsConst() {
+		v := rune(int32(r.U))
+		if upper {
+			v = unicode.ToUpper(v)
+		} else {
+			v = unicode.ToLower(v)
+		}
+		return mkBV(32, uint64(uint32(v)))
+	}
+	// push through ite (keyword letters with a symbolic case bit fold to constants)
+	if r.Op == OIte {
+		a, b := m.caseMapRune(r.A[1], upper), m.caseMapRune(r.A[2], upper)
+		t := c.Ite(r.A[0], a, b)
+		if !t.IsConst() {
+			t.Valid = true
+		}
+		return t
+	}
+	// ASCII by the known bounds: plain arithmetic
+	if v, ok := m.varOf(r); ok && v == r {
+		b := m.getBounds(v)
+		if b[0] >= 0 && b[1] < 0x80 {
+			lo, hi, d := int64('a'), int64('z'), uint64(0xFFFFFFE0)
+			if !upper {
+				lo, hi, d = 'A', 'Z', 32
+			}
+			if b[1] < lo || b[0] > hi {
+				return r
+			}
+			t := c.Ite(c.And(c.Ule(mkBV(32, uint64(lo)), r), c.Ule(r, mkBV(32, uint64(hi)))), c.Add(r, mkBV(32, d)), r)
+			t.Valid = true
+			return t
+		}
+	}
+	name := "go_tolower"
+	if upper {
+		name = "go_toupper"
+	}
+	t := c.UF(name, SBV32, r)
+	t.Valid = true
+	return t
 }
